@@ -13,7 +13,9 @@ def opSchedCheck (j : Json) : Json :=
   let workers := rdNatList (getJ j "workers")
   let conflict : Json := match firstConflict g with | none => Json.null | some (a, b) => Json.arr #[toJson a, toJson b]
   obj [("disciplined", toJson (disciplined g)), ("conflict", conflict), ("fan_in", toJson (fanIn g final workers)),
-       ("isolation_ok", toJson (isolationOk g final (rdNatList (getJ j "shared")) (rdNatList (getJ j "copyback"))))]
+       ("isolation_ok", toJson (isolationOk g final (rdNatList (getJ j "shared")) (rdNatList (getJ j "copyback")))),
+       ("topo_ordered", toJson (topoOrdered g)), ("exactly_once", toJson (exactlyOnce g final workers)),
+       ("path_counts", toJson (workers.map fun w => pathCount g workers w final))]
 end Drv
 
 namespace Drv
